@@ -259,3 +259,45 @@ func VxC17CatchUp() {
 		vx.Assert(got == bestL2, "catchup-head-is-highest-finalised")
 	}
 }
+
+// C17-H3: events delivered by the start-up catch-up scan are buffered exactly like live ones: when
+// their Ethereum block is finalised later, the recorded L1 head is the LAST state commit of the
+// highest finalised Ethereum block (several commits can share one Ethereum block; the provider
+// returns them in log order).
+func VxC17CatchUpThenFinalise() {
+	vx.Bound("catch-up over one chunk; 1..3 state-commit events in log order at symbolic non-decreasing Ethereum heights (equal heights included) and symbolic Starknet block numbers; finalised height symbolic at scan time, then advanced to a symbolic later height; latest < 2^62")
+	e := vxNewEnv(1 << 62)
+	e.p.latest = vx.U64("latest")
+	vx.Assume(e.p.latest < 1<<62)
+	e.p.finalised = vx.U64("finalised")
+	vx.Assume(e.p.finalised <= e.p.latest)
+	ne := 1 + vx.Choice("nevents", 3)
+	var prev uint64
+	for i := 0; i < ne; i++ {
+		h := vx.U64("evh")
+		vx.Assume(h <= e.p.latest && h >= prev)
+		prev = h
+		e.p.events = append(e.p.events, &StateUpdate{L2BlockNumber: vx.U64("evl2"), L1RefHeight: h})
+	}
+	vx.Assert(e.c.catchUpL1HeadUpdates(context.Background()) == nil, "catch-up-ok")
+	later := vx.U64("finalisedLater")
+	vx.Assume(later >= e.p.finalised && later <= e.p.latest)
+	e.p.finalised = later
+	vx.Assert(e.c.setL1Head(context.Background()) == nil, "set-head-ok")
+	// expected: the last event (log order) among those with the highest Ethereum height <= later
+	found := false
+	var bestL1, bestL2 uint64
+	for _, ev := range e.p.events {
+		if ev.L1RefHeight <= later && (!found || ev.L1RefHeight >= bestL1) {
+			found, bestL1, bestL2 = true, ev.L1RefHeight, ev.L2BlockNumber
+		}
+	}
+	got, has := e.lastHead()
+	vx.Assert(has == found, "head-recorded-iff-finalised-event-exists")
+	if has && found {
+		vx.Assert(got == bestL2, "head-is-the-last-commit-of-the-highest-finalised-block")
+	}
+	if ne >= 2 && e.p.events[0].L1RefHeight == e.p.events[1].L1RefHeight {
+		vx.Cover("several-commits-in-one-ethereum-block")
+	}
+}
